@@ -28,6 +28,8 @@ event = st.one_of(
     st.tuples(st.just("hang"), st.integers(0, 3), st.sampled_from(["hung", "hung", "hung-ignore-abrt"])),
     st.tuples(st.just("hang"), st.integers(0, 3), st.sampled_from(["hung", "hung-ignore-abrt"])),
     st.tuples(st.just("exit"), st.integers(0, 3), st.sampled_from([0, 1 << 8, 9])),
+    # a worker on its way out by itself: it dies at one of the arbiter's next system-call boundaries (e.g. inside the timeout scan)
+    st.tuples(st.just("exit_soon"), st.integers(0, 3), st.sampled_from([0, 0, 1 << 8])),
     st.tuples(st.just("sig"), st.lists(st.sampled_from(["SIGTTIN", "SIGTTOU"]), min_size=1, max_size=2)),
     st.tuples(st.just("hup"), st.integers(1, 3)),
     st.tuples(st.just("hup"), st.integers(1, 3), st.sampled_from([1, 2, 5, 30, 60])),      # reload with another timeout
